@@ -168,11 +168,13 @@ let do_spec rest =
        List.iter (fun (r, (b, _)) -> let k = (int_of_nat r, int_of_nat b) in
                    if Hashtbl.mem seen k then incr dup else Hashtbl.add seen k ()) evs;
        (match res with
-        | Fail -> print_endline (Printf.sprintf "spec %s %s :: res=F ff=%s dup=%d nev=%d" gid cid (tok_s ff) !dup (List.length evs))
+        (* alog: what a -noast parser's inline actions log (C07): Execute's loop over every event of the attempt *)
+        | Fail -> print_endline (Printf.sprintf "spec %s %s :: res=F ff=%s dup=%d nev=%d alog=%s" gid cid (tok_s ff) !dup (List.length evs)
+                                   (trace_s (x_execute g ptx evs (O, O))))
         | Succ (p, f) ->
           let ts = x_flat f in
-          print_endline (Printf.sprintf "spec %s %s :: res=S pos=%d toks=%s trace=%s dup=%d nev=%d" gid cid (int_of_nat p) (toks_s ts)
-                           (trace_s (x_execute g ptx ts (O, O))) !dup (List.length evs))))
+          print_endline (Printf.sprintf "spec %s %s :: res=S pos=%d toks=%s trace=%s dup=%d nev=%d alog=%s" gid cid (int_of_nat p) (toks_s ts)
+                           (trace_s (x_execute g ptx ts (O, O))) !dup (List.length evs) (trace_s (x_execute g ptx evs (O, O))))))
   | _ -> failwith "spec: args"
 
 (* gen <gid> <inline> : the generator decisions the model takes *)
